@@ -117,8 +117,10 @@ type wireFact struct {
 var wireAlt = map[string][]string{
 	"desc.Chord.Describe|order": {"call builtin.append(phi", ",[desc.Attribute.Describe(p0.attr,chord.Mapper.GetChordAttributes(p0.mapper,p1)#0[i].Name,p2,p3)#0])"},
 	// the generated name: prefix then the number in decimal, by formatting or by concatenation
-	"chord.GenerateAttributes|name":             {"store var<chord.Attribute>.Name <- ", "#0+strconv.FormatUint(p0.Value,10)"},
-	"astconv.ValuesConverterImpl.Convert|order": {"call builtin.append(phi", ",[astconv.ValuesConverterImpl.convertValue(p0,p1.Values[i])#0])"},
+	"chord.GenerateAttributes|name": {"store var<chord.Attribute>.Name <- ", "#0++strconv.FormatUint(p0.Value,10)"},
+	// the bass of the cmt text: the bass's own interval, printed by its own printer
+	"input.ChordMetaTextMotifier.generateText|bass": {"p0.slashSep++note.Degree.String(p1.Base)"},
+	"astconv.ValuesConverterImpl.Convert|order":     {"call builtin.append(phi", ",[astconv.ValuesConverterImpl.convertValue(p0,p1.Values[i])#0])"},
 }
 
 const tokVal = "github.com/berquerant/ybase.Token.Value"
